@@ -12,6 +12,12 @@ CHECKS = {
   "C02": dict(cat="exploration", tech="bounded-exhaustive enumeration; differential oracle over all probe times (snapshot(q) == snapshot(last significant time <= q)) and sequence == snapshots",
               text="every document of the C01 families plus offset elements/regions carrying 1-3 animation steps, probed at every critical time, midpoint and outside time; the property's own statement is the oracle, no reference needed",
               note="constant-between-critical-times assumption as C01; fingerprints are deep structural (ids, styles, text)", ref="3/C02"),
+  "C03": dict(cat="exploration", tech="bounded-exhaustive enumeration of styled document specs x times against a reference style resolver (R_style)",
+              text="every document of the stated families (precedence lattice {unspecified, specified, animated}^5 x initial per property, font-size unit chains, scalar lengths x font sizes, extent x origin x position x padding x writing mode, textDecoration triples, ruby shapes, style grid) is snapshotted by the real code and every applicable property of every element compared with an independent TTML2/IMSC resolver using exact rationals",
+              note="reference resolver mc/ref_style.py, independent applicability/inheritance tables mc/tables.py; tolerance 1e-9 relative; direction-implied-by-writing-mode only compared when unambiguous", ref="3/C03"),
+  "C13": dict(cat="exploration", tech="bounded-exhaustive enumeration; invariant evaluated on every snapshot",
+              text="every snapshot of every document of the C01 families, of a style grid (all 36 properties x all value forms x all levels/initial/animated x 2 resolutions) and of the white-space family is checked against each clause of the documented ISD shape; exhaustive within bounds",
+              note="applicability read through the model's public is_style_applicable and diffed against an independent IMSC 1.1 table (clause C13.table); white-space clauses limited to what TTML2 states unambiguously", ref="3/C13"),
   "C12": dict(cat="exploration", tech="whole-domain enumeration of frame counts per rate and of milliseconds, against independent SMPTE 12M formulas",
               text="every frame count of the stated ranges (thorough: all of [0,24h) for 7 rates) is converted, inverted, incremented, parsed and written through the real code and compared with an independent SMPTE 12M reference; the domain is finite so enumeration is complete rather than sampled",
               note="SMPTE 12M formulas in mc/props/c12.py gated by hand-computed labels; exact rational arithmetic", ref="3/C12"),
